@@ -93,9 +93,11 @@ TrNotified ==
     /\ Advance
     /\ UNCHANGED <<avars, pend>>
 
-\* (only Stats can see whether a cancelled waiter is still queued)
+\* Only Stats can see whether a cancelled waiter is still queued, so a Drop is needed only while some Stats call
+\* is waiting for its linearization point (it can always be postponed until then).
 Drop(r) ==
-    /\ Ev.op = "ret" /\ Ev.f = "Stats"
+    /\ Observing
+    /\ \E g \in DOMAIN pend : pend[g].f = "Stats" /\ ~pend[g].lin
     /\ r \in waiters /\ r.id \in canc /\ r.id \notin nt
     /\ ADrop(r)
     /\ UNCHANGED <<pend, notif, nt, l, viol, vl>>
